@@ -259,6 +259,27 @@ def check_metamorphic(short, inum, t, data):
         ra = amb_a.retry_decode(map_a)
         if ra is None or describe(ra) != describe(via_map):
             out.append(("C12:retry-after-map-growth", "%s: retry with map A after it learnt the type gave %r" % (where, ra and describe(ra))))
+        # the frame is what is re-decoded: an ambiguous event whose address OBJECT has since been renumbered by the
+        # program (a scratch DeviceShort reused while rebuilding a backlog, a receiver editing the event it was handed)
+        # retries exactly like its frame decodes with that map
+        sa = _address.DeviceShort(short)
+        for label, ev in (("built with the public constructor from an address object the program renumbered afterwards",
+                           dg.AmbiguousInstanceType(short_address=sa, instance_number=inum, data=data)),
+                          ("decoded, then its .short_address renumbered by the receiver", command.from_frame(frame.ForwardFrame(24, v_di)))):
+            try:
+                (sa if ev.short_address is sa else ev.short_address).address = (short + 7) % 64
+                sa.address = (short + 7) % 64
+            except Exception:  # noqa - read-only would be fine too
+                pass
+            fv = ev.frame.as_integer
+            for ml, mm in (("the map that knows the frame's instance", m), ("a map without that entry", other)):
+                want = command.from_frame(frame.ForwardFrame(24, fv), dev_inst_map=mm)
+                want = None if type(want).__name__ == "AmbiguousInstanceType" else describe(want)
+                got = ev.retry_decode(mm)
+                got = None if got is None else describe(got)
+                if got != want:
+                    out.append(("C12:retry-follows-the-address-object-not-the-frame", "%s: ambiguous event %s (frame now %#08x), "
+                                "retried with %s: %r; decoding that frame with the same map: %r" % (where, label, fv, ml, got, want)))
         # the receiver of an event edits it (renumbers the source when merging two buses): later decodes are unaffected
         ref_desc = describe(via_map)
         try:
